@@ -34,6 +34,18 @@ def run(ctx):
     ctx.instance('R-ORDER.evict.sites', lru.evict_only_for_new(ctx, fx, LM + 'put', 'containers::specialized::lru_map::LruNode::value'))
     ctx.floor('R-ORDER.evict.sites', 1)
     ctx.floor('R-TOUCH.accesses', 2)
+    # ... and only those: a pure observer never reorders the recency list (a membership query is not an access)
+    nobs = 0
+    for m in ('contains_key', 'len', 'is_empty', 'capacity'):
+        rec = fx.raw(LM + m)
+        if rec is None:
+            continue
+        of = Fn(rec)
+        ctx.analysed_fns.add(of.id)
+        nobs += order.forbidden_in(ctx, of, r"LruList.*::(move_to_head|insert_head|remove|remove_tail|push_front|unlink)$|::evict_lru$",
+                                   "R-PURE", "observer %s leaves the recency order alone" % m, depth=3)
+    ctx.instance('R-PURE.observers', nobs)
+    ctx.floor('R-PURE.observers', 2)
     lru.list_ops_under_index_lock(ctx, fx, 'src/containers/specialized/lru_map.rs', 'lru_map::LruMap', 'LruMap::hash_map')
     ctx.floor('R-LOCKCOV.lru.sites', 3)
     # the page cache's CacheBuffer keeps a (pointer, length) view of its own Vec: rebuilt after every reshaping of the Vec
@@ -165,7 +177,8 @@ def run(ctx):
                     "every path to a normal return from, each access to LruNode.value in get/put. R-LOCKCOV.lru: a guard of "
                     "LruMap.hash_map is live at every LruList operation of the map's methods. R-CACHEDVIEW: in CacheBuffer every call that can move or "
                     "resize data_buffer (reserve/extend/resize/clear/replace, also inside private helpers) is followed on every path to a "
-                    "normal return by a store to data_slice (paths on which data_slice is None excepted).",
+                    "normal return by a store to data_slice (paths on which data_slice is None excepted). R-PURE: LruMap::contains_key/len/is_empty/"
+                    "capacity reach (three levels of crate-local callees) no LruList reordering call and no evict_lru.",
         trusted_base=["rustc nightly MIR", "zfacts", "rules/order.py", "rules/lru.py", "rules/cachedview.py", "rules/sync.py (guard liveness)", "props/C17.py tables"],
         rule_text="obligation = ordering pair | callback entry identity | caller of on_evict | strategy arm",
     )
